@@ -228,7 +228,7 @@ def mc_and_replay(rep, binp, module, consts, what, kind='dec', workers=4, r=None
             real[cur] = []
         elif e['ev'] in ('D', 'E') and cur is not None:
             real[cur].append(e)
-    keys = ('res', 'ml', 'ma', 'read', 'written', 'out', 'had', 'enc') if kind == 'dec' else ('res', 'um', 'read', 'written', 'out', 'had', 'pending')
+    keys = ('res', 'ml', 'ma', 'read', 'written', 'out', 'had', 'enc', 'cap', 'q') if kind == 'dec' else ('res', 'um', 'read', 'written', 'out', 'had', 'pending')
     drift = 0
     first = None
     ncalls = 0
@@ -241,8 +241,8 @@ def mc_and_replay(rep, binp, module, consts, what, kind='dec', workers=4, r=None
             if any(c.get(k) != rc[j].get(k) for k in keys):
                 drift += 1
                 if first is None:
-                    first = {'history': i + 1, 'call': j, 'predicted': {k: c.get(k) for k in keys + ('src', 'cap', 'last')},
-                             'real': {k: rc[j].get(k) for k in keys + ('src', 'cap', 'last')}}
+                    first = {'history': i + 1, 'call': j, 'predicted': {k: c.get(k) for k in set(keys + ('src', 'cap', 'last'))},
+                             'real': {k: rc[j].get(k) for k in set(keys + ('src', 'cap', 'last'))}}
                 break
     run['replayed_histories'] = len(hists)
     run['replayed_calls'] = ncalls
@@ -302,17 +302,39 @@ MC_BOM_THOROUGH = MC_BOM_QUICK + [
 ]
 
 
-def run_mc_set(rep, binp, configs, what):
-    """the MC runs are independent: run up to 4 TLC instances at a time, then replay each export"""
+def run_mc_set(rep, binp, configs, what, module='MC_DecQ', kind='dec'):
+    """the MC runs are independent: run up to 5 TLC instances at a time, then replay each export"""
     import concurrent.futures
     t = time.time()
     with concurrent.futures.ThreadPoolExecutor(max_workers=5) as ex:
-        futs = [ex.submit(mc_run, 'MC_Dec', cfg, ('NoViolation',), (), 'View', 3, 3000, True) for cfg in configs]
+        futs = [ex.submit(mc_run, module, cfg, ('NoViolation',), (), 'View', 3, 3000, True) for cfg in configs]
         runs = [f.result() for f in futs]
-    log('TLC model checking of %d configurations in %.1fs' % (len(configs), time.time() - t))
+    log('TLC model checking of %d configurations of %s in %.1fs' % (len(configs), module, time.time() - t))
     for cfg, r in zip(configs, runs):
-        mc_and_replay(rep, binp, 'MC_Dec', cfg, what, r=r)
+        mc_and_replay(rep, binp, module, cfg, what, kind=kind, r=r)
     log('MC set (%d configurations) in %.1fs' % (len(configs), time.time() - t))
+
+
+def E(enc, source, repl, maxpend, caps, alphabet):
+    return dict(EncName=enc, Source=source, Repl=repl, MaxPend=maxpend, Caps=caps, Alphabet=alphabet)
+
+
+MC_ENC_QUICK = [
+    E('ISO-2022-JP', 'utf8', False, 2, [4, 5, 6, 64], [0x41, 0x5C, 0x1B, 0xA5, 0x3042, 0xFF61, 0xE9, 0x1F4A9]),
+    E('ISO-2022-JP', 'utf16', True, 2, [14, 15, 16, 17, 24, 64], [0x41, 0x5C, 0x1B, 0xA5, 0x3042, 0xFF61, 0xE9, 0x1F4A9, 0xDCA9]),
+    E('Big5', 'utf16', False, 3, [4, 5, 6, 64], [0x41, 0x2550, 0x4E00, 0x2008A, 0xE9, 0x1F4A9, 0xD83D]),
+    E('gb18030', 'utf8', True, 3, [14, 15, 17, 18, 64], [0x41, 0x80, 0x20AC, 0x4E00, 0xE5E5, 0xE7C7, 0x1F4A9]),
+    E('windows-1252', 'utf8', True, 3, [14, 15, 16, 64], [0x41, 0x2C, 0x80, 0xE9, 0x20AC, 0x3042, 0x1F4A9]),
+    E('EUC-KR', 'utf8', False, 3, [4, 5, 6, 64], [0x41, 0x2C, 0xAC00, 0x4E00, 0xE9, 0x1F4A9]),
+]
+MC_ENC_THOROUGH = MC_ENC_QUICK + [
+    E('ISO-2022-JP', 'utf8', True, 3, [14, 15, 16, 17, 20, 64], [0x41, 0x5C, 0x7E, 0x0E, 0xA5, 0x203E, 0x2212, 0x3042, 0xFF61, 0x4E00, 0xE9, 0x1F4A9]),
+    E('ISO-2022-JP', 'utf16', False, 3, [4, 5, 6, 7, 64], [0x41, 0x5C, 0x1B, 0xA5, 0x3042, 0xFF9F, 0x4EDD, 0xE9, 0x1F4A9, 0xD83D]),
+    E('Shift_JIS', 'utf16', True, 3, [14, 15, 16, 64], [0x41, 0x5C, 0x80, 0xA5, 0x203E, 0x2212, 0xFF61, 0x3042, 0x1F4A9, 0xDCA9]),
+    E('EUC-JP', 'utf8', False, 3, [4, 5, 6, 64], [0x41, 0xA5, 0x2212, 0xFF61, 0x3042, 0x4E00, 0x80, 0x1F4A9]),
+    E('GBK', 'utf16', False, 3, [4, 5, 6, 7, 8, 64], [0x41, 0x80, 0x20AC, 0xE9, 0x4E00, 0xE5E5, 0xE78D, 0x1F4A9, 0xD83D]),
+    E('Big5', 'utf8', True, 4, [14, 15, 16, 64], [0x41, 0x2550, 0x5341, 0x4E00, 0x2008A, 0xE9, 0x1F4A9]),
+]
 
 
 def plan_C01(rep, seed, tier):
@@ -347,18 +369,25 @@ def plan_C04(rep, seed, tier):
     binp = build_harness('default')
     rv(rep, binp, 'enc-cutsets', seed, tier, shards=32 if tier == 'thorough' else 16)
     rv(rep, binp, 'enc-random', seed, tier)
+    run_mc_set(rep, binp, MC_ENC_THOROUGH if tier == 'thorough' else MC_ENC_QUICK,
+               'Layer I (encoder macros, ISO-2022-JP encoder, NCR wrapper) x EncoderMonitor: all Stage/Invoke interleavings, invariant NoViolation '
+               '(two-sided prefix rule, no split character, round trip, pending state, progress)', module='MC_Enc', kind='enc')
     rep.cov['rule'] = ('all cut sets of every text of length <= 3 (thorough: 4) over per-encoder scalar alphabets x capacities around check_space thresholds '
                        'and NCR_EXTRA x both sources x slice/Vec x replacement; seeded random histories')
 
 
 def plan_C05(rep, seed, tier):
     binp = build_harness('default')
-    rv(rep, binp, 'dec-cutsets', seed, tier, extra=['--sinks', 'str,string'], tag='dec-cutsets-str')
+    rv(rep, binp, 'dec-cutsets', seed, tier, extra=['--sinks', 'str,string'] + (['--thin', '2'] if tier == 'quick' else []), tag='dec-cutsets-str')
     rv(rep, binp, 'dec-random', seed, tier, extra=['--sinks', 'str,string,utf8,utf16'], tag='dec-random-allsinks')
-    rv(rep, binp, 'mem', seed, tier, shards=32, extra=['--which', 'c05', '--thin', '2'] if tier == 'quick' else ['--which', 'c05'], tag='mem-str')
+    r = mc_run('MC_StrZeroing', dict(MaxLen=8 if tier == 'thorough' else 7, K=3, GarbageBytes=[65, 128, 195, 255]), invariants=('ResultValid', 'PrefixKept'), view=None, workers=8)
+    rep.add_mc(r['name'], r, 'Layer I clean-up of decode_to_str* / convert_*_to_str_partial (zero MAX_STRIDE_SIZE, then strip continuation bytes): every valid old buffer, every written prefix, every garbage pattern in the stride window => valid UTF-8')
+    if r.get('violated') or not r.get('completed'):
+        rep.notes.append('MODEL-ALARM MC_StrZeroing: ' + (r.get('error_text') or '')[:1000])
+    rv(rep, binp, 'mem', seed, tier, shards=32, extra=['--which', 'c05', '--thin', '3'] if tier == 'quick' else ['--which', 'c05'], tag='mem-str')
     simd = build_harness('simd')
-    rv(rep, simd, 'mem', seed, tier, shards=32, extra=['--which', 'c05', '--thin', '3'] if tier == 'quick' else ['--which', 'c05'], tag='mem-str-simd', build='simd')
-    rv(rep, simd, 'dec-cutsets', seed, tier, extra=['--sinks', 'str,string', '--thin', '4' if tier == 'quick' else '1'], tag='dec-cutsets-str-simd', build='simd')
+    rv(rep, simd, 'mem', seed, tier, shards=32, extra=['--which', 'c05', '--thin', '4'] if tier == 'quick' else ['--which', 'c05'], tag='mem-str-simd', build='simd')
+    rv(rep, simd, 'dec-cutsets', seed, tier, extra=['--sinks', 'str,string', '--thin', '6' if tier == 'quick' else '1'], tag='dec-cutsets-str-simd', build='simd')
     rep.cov['rule'] = ('decode_to_str* / decode_to_string* on all cut sets of short class-alphabet streams: destination pre-filled with valid text of 1..4-byte '
                        'characters, whole destination validated after every call (also after the panic of a reused finished decoder); written prefix validated on every call of every sink')
 
@@ -375,13 +404,16 @@ def plan_C06(rep, seed, tier):
 
 def plan_C07(rep, seed, tier):
     binp = build_harness('default')
-    rv(rep, binp, 'dec-cutsets', seed, tier, extra=['--cap', 'query', '--sinks', 'utf8,utf16', '--thin', '2' if tier == 'quick' else '1'], tag='dec-cutsets-query')
-    rv(rep, binp, 'dec-cutsets', seed, tier, extra=['--cap', 'mixq', '--sinks', 'utf8,utf16', '--thin', '2' if tier == 'quick' else '1'], tag='dec-cutsets-mixq')
-    rv(rep, binp, 'dec-bom', seed, tier, extra=['--cap', 'query', '--thin', '8' if tier == 'quick' else '2'], tag='dec-bom-query')
-    rv(rep, binp, 'dec-bom', seed, tier, extra=['--cap', 'mixq', '--thin', '4' if tier == 'quick' else '1'], tag='dec-bom-mixq')
-    rv(rep, binp, 'enc-cutsets', seed, tier, extra=['--cap', 'query', '--thin', '2' if tier == 'quick' else '1'], tag='enc-cutsets-query')
-    rv(rep, binp, 'enc-cutsets', seed, tier, extra=['--cap', 'mixq', '--thin', '2' if tier == 'quick' else '1'], tag='enc-cutsets-mixq')
+    rv(rep, binp, 'dec-cutsets', seed, tier, extra=['--cap', 'query', '--sinks', 'utf8,utf16', '--thin', '3' if tier == 'quick' else '1'], tag='dec-cutsets-query')
+    rv(rep, binp, 'dec-cutsets', seed, tier, extra=['--cap', 'mixq', '--sinks', 'utf8,utf16', '--thin', '3' if tier == 'quick' else '1'], tag='dec-cutsets-mixq')
+    rv(rep, binp, 'dec-bom', seed, tier, extra=['--cap', 'query', '--thin', '12' if tier == 'quick' else '2'], tag='dec-bom-query')
+    rv(rep, binp, 'dec-bom', seed, tier, extra=['--cap', 'mixq', '--thin', '6' if tier == 'quick' else '1'], tag='dec-bom-mixq')
+    rv(rep, binp, 'enc-cutsets', seed, tier, extra=['--cap', 'query', '--thin', '3' if tier == 'quick' else '1'], tag='enc-cutsets-query')
+    rv(rep, binp, 'enc-cutsets', seed, tier, extra=['--cap', 'mixq', '--thin', '3' if tier == 'quick' else '1'], tag='enc-cutsets-mixq')
     rv(rep, binp, 'query-overflow', seed, tier)
+    mcq = (MC_CHUNKING_THOROUGH + MC_BOM_THOROUGH) if tier == 'thorough' else [MC_CHUNKING_QUICK[i] for i in (0, 2, 3, 7)] + [MC_BOM_QUICK[i] for i in (0, 2, 5)]
+    run_mc_set(rep, binp, mcq, 'Layer I incl. the max_*_buffer_length formulas (MaxLen.tla): InvokeQueried issues every call with the formula value in '
+               'every reachable state; the monitor budget conjunct (C07.insufficient) is part of NoViolation; replay uses the REAL query and compares its value with the formula')
     rep.cov['rule'] = ('calls of the cut-set / BOM-matrix histories are issued with dst.len() == the value the matching max_*_buffer_length query returns on '
                        'the same converter in its current state for the number of units passed (every call, or alternating with small capacities 0..min+1 so that '
                        'states behind an OutputFull - pending BB, half-read escapes, pending leads - are reached); OutputFull on a queried call is a violation')
@@ -459,6 +491,11 @@ def plan_C11(rep, seed, tier):
 def plan_C13(rep, seed, tier):
     binp = build_harness('default')
     rv(rep, binp, 'labels', seed, tier, shards=32, extra=['--data', SPEC + '/data'])
+    r = mc_run('MC_Labels', dict(Alphabet=[9, 10, 11, 12, 13, 32, 0, 65, 97, 117, 56, 45, 58, 47, 128] if tier == 'thorough' else [9, 10, 11, 32, 0, 65, 97, 117, 56, 45, 58, 47, 128],
+                                MaxLen=5 if tier == 'thorough' else 4), invariants=('ScannerEqualsStandard',), view=None, workers=8)
+    rep.add_mc(r['name'], r, 'Layer I scanner of for_label (three phases, 19-byte cut-off) = get-an-encoding on every byte string of length <= MaxLen over a class alphabet and on the strings around the cut-off')
+    if r.get('violated') or not r.get('completed'):
+        rep.notes.append('MODEL-ALARM MC_Labels: ' + (r.get('error_text') or '')[:1000])
     rep.cov['rule'] = ('for_label / for_label_no_replacement on: all 228 labels, all names, all case masks (<= 7 letters; 12 in thorough), whitespace/odd-byte paddings, '
                        'over-long and internally modified labels, strings around the 19-byte cut-off, seeded random strings, two-edit mutants; '
                        'single-edit neighbourhood of labels (seed-chosen tenth in quick, all 228 in thorough) by set equality with the spec')
